@@ -30,6 +30,7 @@ Tol_cs_optical_big   == -4000   \* size parameter >= 50 (default continued-fract
 Tol_cs_integral      == -5000   \* angular integrals by Gauss-Legendre quadrature (measured <= 4e-8)
 Tol_cs_rayleigh      == -3500   \* Rayleigh formula at x ~ 1e-3: O(x^2) corrections
 Tol_cs_textbook      == -6000   \* four numbers vs independent series
+Tol_cs_cluster       == -4000   \* clusters, default truncation: |C_abs|/C_ext for real indices, optical theorem (measured 1e-5)
 Tol_cs_multisphere   == -3500   \* one-sphere cluster vs Mie (measured <= 1.3e-6 .. default truncation)
 Tol_lens_interp      == -8000   \* MieLens interpolation on/off/check, window/degree variants (calibrating)
 Tol_lens_quad        == -5000   \* MieLens default quadrature vs refined: "does not change" is judged at the same 1e-5 as the
